@@ -192,13 +192,24 @@ def compare_draw(c, d, m):
     return diffs
 
 
-def ambiguous(m):
-    """coins within 1e-9 of 0 or 1 make the exact model and the f64 code incomparable"""
+def ambiguous(m, d=None):
+    """coins within 1e-9 of 0 or 1 make the exact model and the f64 code incomparable; so do
+    trajectories whose energies agree to rounding (ExactNormal on an exactly whitened normal): the
+    code's `other.log_size >= self.log_size` then compares sums of equal weights and the rounding of
+    logaddexp decides whether a random word is drawn at all"""
     if m == [[-1]]:
         return False
     for p in m[2]:
         if p < 1000 or p > 10 ** 12 - 1000:
             return True
+    if d is not None and d.get("init") and d.get("leapfrogs"):
+        es = [bits2f(d["init"]["energy"])] + [bits2f(lf["energy"]) for lf in d["leapfrogs"] if not lf["diverged"]]
+        es = [e for e in es if e == e and abs(e) != float("inf")]
+        if len(es) >= 3:
+            # two points with (nearly) the same energy are enough for a tie of one-state sub-trees
+            srt = sorted(es)
+            if min(b - a for a, b in zip(srt, srt[1:])) < 1e-12 * (1 + abs(srt[0])) and (srt[-1] - srt[0]) < 1e-9:
+                return True
     return False
 
 
@@ -394,7 +405,7 @@ def run(ctx):
         stats["lowrank"] += int("lowrank" in c)
         if m != [[-1]]:
             stats["coins"] += len(m[2])
-        if ambiguous(m):
+        if ambiguous(m, d):
             namb += 1
             continue
         diffs = compare_draw(c, d, m)
